@@ -1,11 +1,44 @@
 """Which worker families make up each property's check, per tier."""
 
 
-def fam(name, profiles=("checked",), shards=1, digests=False, extra=None):
-    return dict(name=name, profiles=list(profiles), shards=shards, digests=digests, extra=extra or [])
+def fam(name, profiles=("checked",), shards=1, digests=False, extra=None, crumbs=False):
+    return dict(name=name, profiles=list(profiles), shards=shards, digests=digests, extra=extra or [], crumbs=crumbs)
 
+
+BOTH = ("checked", "release")
 
 CHECKS = {
+    "C01": dict(
+        families=lambda tier: [fam("step", BOTH, shards=8, crumbs=True)],
+        death_is_verdict=True,
+        rule="(step) every registered instruction by NAME (the list comes from InstructionSet::cache, so new instructions are swept automatically) x operand product of the boundary alphabets at exact depth and with bystanders x every operand-missing pattern x {empty, fully populated} state, executed by PushInterpreter::step in an overflow-checking and in a release build, in supervised worker processes (address-space limit; an abort is attributed to its case by a breadcrumb and replayed); oracle = returns normally",
+        bounds=dict(quick="boundary alphabets, product capped at 8000 per instruction (then the reduced alphabet)", thorough="wider alphabets, cap 60000 per instruction"),
+        assumptions=["operand sizes above 1000 for allocation-sizing instructions are the resource envelope (C15)", "EXEC.CMD names resolve to the stubs in /verif/stubs (PATH is set by the supervisor)"],
+    ),
+    "C04": dict(
+        families=lambda tier: [fam("scalar", BOTH, shards=4, digests=True, crumbs=True)],
+        rule="every BOOLEAN/INTEGER/FLOAT/NAME arithmetic, logic, comparison, min/max, trig and conversion instruction, dispatched by NAME through the real InstructionSet and PushInterpreter::step, on every operand tuple of the boundary alphabets x {exact depth, two bystanders below} x {empty, fully populated} other stacks; oracle = reference model row (Exact / OneOf / Constraint), plus identical per-case outcome digests in the checked (overflow-checking) and release builds; non-trivial = cases whose step changes the state",
+        bounds=dict(quick="INTEGER 11 boundary values, FLOAT 13 (incl. -0.0, inf, NaN, MIN_POSITIVE), all pairs", thorough="INTEGER 17, FLOAT 18 values, all pairs"),
+        assumptions=["operand values outside the boundary alphabets are not explored", "f32::sin/cos/tan/exp of std are the documented meaning of the trigonometric instructions"],
+    ),
+    "C05": dict(
+        families=lambda tier: [fam("all")],
+        rule="9 stack types x {DUP,POP,SWAP,ROT,YANK,YANKDUP,SHOVE,FLUSH,STACKDEPTH} (every registered one) x depth 0..N of pairwise distinct items x index in {none, MIN, -2..depth+1, MAX} x {no second integer, a second integer below the index}; oracle = ONE generic position map applied to an abstract list (the same function for all nine types) + multiset conservation + every other component unchanged",
+        bounds=dict(quick="depth 0..5", thorough="depth 0..7"),
+        assumptions=["BOOLEAN items cannot be pairwise distinct; an aperiodic pattern is used instead"],
+    ),
+    "C09": dict(
+        families=lambda tier: [fam("vector", BOTH, shards=8, digests=True, crumbs=True)],
+        rule="every BOOLVECTOR/INTVECTOR/FLOATVECTOR instruction that is not a generic stack operation or RAND, by NAME through step: all ordered pairs of a vector pool (lengths 0..N, equal and unequal, ramp / boundary / zero-containing / repeating patterns; all boolean vectors) x offsets/indices {MIN,-5..5,MAX} x scalar operands; oracle = reference row (second[j] op top[j-offset] on the overlap, clamped GET/SET, documented aggregates), identical digests in checked and release builds",
+        bounds=dict(quick="vector length <= 3", thorough="vector length <= 4"),
+        assumptions=["sizes above 1000 for ONES/ZEROS/SINE belong to the resource envelope (C15) and are not swept here"],
+    ),
+    "C10": dict(
+        families=lambda tier: [fam("missing", shards=4, crumbs=True), fam("fired", shards=8, crumbs=True)],
+        rule="all registered instructions by NAME: (missing) every non-empty subset of the instruction's operand stacks made too short, every depth below the need, on an empty and on a fully populated state (every stack, INDEX, queues, graphs, bindings); (fired) the operand product of the small alphabet on both bases; oracle = on the full snapshot: unfired => nothing pushed, operand stacks lose at most their own top operands, every other component identical; fired => change confined to the documented footprint",
+        bounds=dict(quick="tiny alphabet for fired cases", thorough="boundary alphabet for fired cases (capped per instruction, then tiny)"),
+        assumptions=["footprints are read off the doc comments (harness/src/foot.rs)"],
+    ),
     "C16": dict(
         families=lambda tier: [fam("int"), fam("item")],
         rule="explicit-state BFS to fixpoint over PushStack<i32> and PushStack<Item>: every reachable content of bounded size x every public operation x every position in [0,len+2], each compared (return value and contents) with a Vec whose index 0 is the top; non-trivial = transitions that change the container",
